@@ -22,8 +22,29 @@ def abf_conf(case):
           "  fullSamples %d" % case.get("full", 2), "  applyBias %s" % ("on" if case.get("apply", True) else "off")]
     if not case.get("integrate", True):
         L += ["  integrate off"]
-    L += ["  shared on", "  sharedFreq %d" % case["freq"], "}"]
+    if case.get("script"):
+        # sharing is switched on by the script command "cv bias a share" (event "x"), not by the configuration
+        L += ["}"]
+    else:
+        L += ["  shared on", "  sharedFreq %d" % case["freq"], "}"]
     return L
+
+
+def strip_last_section(path, fmt, cut_in_key=False):
+    """Turn the state file of a shared-ABF walker into one of the older format, which has no
+    last_samples/last_gradient section (text: the lines from the keyword to the closing brace of the
+    block; binary: from the length word of the keyword to the end -- the ABF block is the last one).
+    cut_in_key: binary only, keep the length word and 3 bytes of the keyword (a file cut short)."""
+    data = open(path, "rb").read()
+    if fmt == "text":
+        lines = data.decode().split("\n")
+        i = next(k for k, x in enumerate(lines) if x.strip() == "last_samples")
+        j = next(k for k in range(i, len(lines)) if lines[k].strip() == "}")
+        out = "\n".join(lines[:i] + lines[j:]).encode()
+    else:
+        i = data.index(b"last_samples")
+        out = data[:i + 3] if cut_in_key else data[:i - 8]
+    atomic_write(path, out)
 
 
 def abf_setup(case, first=True):
@@ -111,6 +132,25 @@ def run_abf(exe, case, scratch, timeout=30.0):
                 else:
                     r = T.walkers[w].collect(tok, timeout)
                     out[k] = (w, [x for x in r if x.startswith("STEP")], parse_shared(r))
+            elif ev[0] == "x":
+                # walker w calls "cv bias a share": returns when every walker has called it
+                tok = T.walkers[w].send(["script cv bias a share", "dumpshared a"])
+                pending[w] = (k, tok)
+                if len(pending) == n:
+                    for pw, (pk, ptok) in sorted(pending.items()):
+                        r = T.walkers[pw].collect(ptok, timeout)
+                        out[pk] = (pw, [x for x in r if x.startswith("SCRIPT")], parse_shared(r))
+                    pending = {}
+            elif ev[0] == "R":
+                # restart through a state of the older format (no last_samples/last_gradient section);
+                # ev[3] = True: an unformatted state cut inside the keyword instead, which must be refused
+                fmt = ev[2]
+                r = T.walkers[w].do(["save %s st%d" % (fmt, k)], timeout)
+                strip_last_section(os.path.join(dirs[w], "st%d" % k), fmt, cut_in_key=bool(len(ev) > 3 and ev[3]))
+                r += T.walkers[w].do(abf_setup(case) + ["load st%d" % k, "dumpshared a"], timeout)
+                out[k] = (w, [x for x in r if x.startswith(("SAVE", "LOAD", "CONFIG"))], parse_shared(r))
+                first[w] = True
+                last[w] = t[w] if t[w] is not None else 0
             elif ev[0] == "o":
                 # end-of-run output of walker w (write_output_files: .count/.grad/.pmf of the local and, on replica 0, of the
                 # shared grids); changes nothing in the grids
@@ -479,7 +519,8 @@ def czar_conf(case):
     return ["colvar {", "  name v0", "  lowerBoundary 0", "  upperBoundary %d" % case["nbins"], "  width 1",
             "  extendedLagrangian on", "  extendedFluctuation 0.5", "  extendedTimeConstant 8", "  extendedTemp 300",
             "  distanceZ {", "    main { atomNumbers 1 }", "    ref { dummyAtom (0,0,0) }", "    axis (0,0,1)", "  }", "}",
-            "abf {", "  name a", "  colvars v0", "  fullSamples 2", "  shared on", "  sharedFreq %d" % case["freq"], "}"]
+            "abf {", "  name a", "  colvars v0", "  fullSamples 2"] + \
+           ([] if case.get("script") else ["  shared on", "  sharedFreq %d" % case["freq"]]) + ["}"]
 
 
 def run_czar(exe, case, scratch, timeout=30.0):
@@ -494,6 +535,7 @@ def run_czar(exe, case, scratch, timeout=30.0):
         os.makedirs(d)
         dirs.append(d)
     res = []
+    restarts = []
     with W.Team(exe, n, dirs, timeout_ms=4000) as T:
         # the total force on an extended-Lagrangian coordinate is the one of the previous step: with same-step forces the
         # ABF and CZAR gradient sums stay zero
@@ -505,11 +547,22 @@ def run_czar(exe, case, scratch, timeout=30.0):
         for t, row in enumerate(case["steps"]):
             T.all_do(lambda i: ["pos 1 0 0 %s" % float(row[i][0] + row[i][1]).hex(),
                                 "eforce 1 0 0 %s" % float(row[i][2]).hex(), "step"], timeout)
+            if case.get("script") and (t + 1) % case["freq"] == 0:
+                # sharing switched on (and performed) by the script command, on all walkers together
+                T.all_do(["script cv bias a share"], timeout)
             if t in case["gather_at"]:
                 before = [parse_shared(r) for r in T.all_do(["dumpshared a"], timeout)]
                 out = T.all_do(["postrun", "dumpshared a"], timeout)
                 res.append((t, [parse_shared(r) for r in out], [[x for x in r if x.startswith("POSTRUN")] for r in out], before))
+            fmts = case.get("restart_at", {}).get(str(t))
+            if fmts:
+                # the job ends here and is started again: every walker goes through its state file (walker w in format fmts[w])
+                bs = [parse_shared(r) for r in T.all_do(["dumpshared a"], timeout)]
+                rs = T.all_do(lambda i: ["save %s zst%d" % (fmts[i], t)] + setup + ["load zst%d" % t, "dumpshared a"], timeout)
+                for w, (b, r) in enumerate(zip(bs, rs)):
+                    restarts.append((t, w, fmts[w], b, parse_shared(r), [x for x in r if x.startswith(("SAVE", "LOAD", "CONFIG"))]))
         stats = T.all_do(["repstat"], timeout)
+    case["_restarts"] = restarts
     return res, stats
 
 
